@@ -36,6 +36,7 @@ func init() {
 			{"C10.STRBOUNDS", "zzControlGood_C10_STRBOUNDS", false},
 			{"C10.TYPEDNIL", "zzControlBad_C10_TYPEDNIL", true},
 			{"C10.TYPEDNIL", "zzControlGood_C10_TYPEDNIL", false},
+			{"C10.STALEELEM", "zzControlBad_C10_STALEELEM", true},
 			{"C10.TABLEINDEX", "zzControlGood_C10_TABLEINDEX", false},
 		},
 	})
